@@ -25,9 +25,17 @@
                                   with an exited subscription attached to a live topic, after
                                   which a Publish ends CDone false
    All the C07/C16 results hold for both values of [guard]; only the C11 results need it.
+     C08_posts_in_publish_order   every reachable state, any flags: what a subscription has been
+                                  given (handled posts then queued posts) is strictly
+                                  increasing in the topic's Publish sequence numbers, bounded
+                                  by the topic's counter, and the Publish in progress has
+                                  one post task per subscription, sent at most once
+     C08_no_duplicate, C08_log_in_publish_order   corollaries
+     C08_refuted_without_await    the variant [xstep] (topic does not wait for its post
+                                  tasks): a reachable state with log [1; 0]
    and examples by vm_compute at the end. *)
 
-From Coq Require Import List NArith Arith Bool Lia.
+From Coq Require Import List NArith Arith Bool Lia Sorted.
 Import ListNotations.
 From Deltio Require Import Model.ConcActors.
 Set Implicit Arguments.
@@ -120,7 +128,7 @@ Ltac inv_nth :=
   end.
 
 Ltac sproj := cbn [topics subs clients helpers t_mbox t_phase t_atts t_alive
-                   s_mbox s_phase s_deleted s_topic s_exists h_sub h_topic h_caller h_pc] in *.
+                   s_mbox s_phase s_deleted s_topic s_exists s_log t_seq h_sub h_topic h_caller h_pc] in *.
 
 (* answer_remove *)
 Lemma answer_remove_inv : forall s ss j z,
@@ -128,7 +136,7 @@ Lemma answer_remove_inv : forall s ss j z,
   (nth_error ss j = Some z /\ (j = s -> forall stash, s_phase z <> SDel WaitReply stash)) \/
   (j = s /\ exists sb stash, nth_error ss s = Some sb /\ s_phase sb = SDel WaitReply stash /\
      z = {| s_mbox := s_mbox sb; s_phase := SDel Replied stash; s_deleted := s_deleted sb;
-            s_topic := s_topic sb; s_exists := s_exists sb |}).
+            s_topic := s_topic sb; s_exists := s_exists sb; s_log := s_log sb |}).
 Proof.
   unfold answer_remove. intros s ss j z H.
   destruct (nth_error ss s) as [sb|] eqn:E.
@@ -232,7 +240,7 @@ Qed.
 
 (* ---------- invariant: an awaiting client is awaited for somewhere ---------- *)
 Definition tw (tp : topic) : list nat :=
-  flat_map tmsg_repl (t_mbox tp) ++ match t_phase tp with TPub _ c _ => [c] | TIdle => [] end.
+  flat_map tmsg_repl (t_mbox tp) ++ match t_phase tp with TPub _ c _ _ => [c] | TIdle => [] end.
 Definition sw (sb : sub) : list nat :=
   flat_map smsg_repl (s_mbox sb) ++ match s_phase sb with SDel _ stash => stash | _ => [] end.
 Definition hw (hp : helper) : list nat :=
@@ -573,11 +581,11 @@ Definition deadlock_schedule (k : nat) : list label :=
   [LSSend 0].
 
 Definition deadlock_state (k : nat) : state :=
-  {| topics := [{| t_mbox := [TRemove 0]; t_phase := TPub [0] 2 true;
-                   t_atts := [0]; t_alive := true |}];
+  {| topics := [{| t_mbox := [TRemove 0]; t_phase := TPub [0] 2 true 0;
+                   t_atts := [0]; t_alive := true; t_seq := 1 |}];
      subs := [{| s_mbox := map (fun i => SGeneric (3 + i)) (seq 0 k);
                  s_phase := SDel WaitReply [1]; s_deleted := true;
-                 s_topic := 0; s_exists := true |}];
+                 s_topic := 0; s_exists := true; s_log := [] |}];
      clients := CDone true :: CAwait :: CAwait :: map (fun _ => CAwait) (seq 0 k);
      helpers := [{| h_sub := 0; h_topic := 0; h_caller := 0; h_pc := HDone |}] |}.
 
@@ -600,7 +608,7 @@ Theorem C07_refuted_without_drain :
   exists st, reachable (cfg_orig 2) st /\
     (* a Publish (client 2) and a Delete (client 1) are pending ... *)
     nth_error (clients st) 1 = Some CAwait /\ nth_error (clients st) 2 = Some CAwait /\
-    (exists tp, nth_error (topics st) 0 = Some tp /\ t_phase tp = TPub [0] 2 true) /\
+    (exists tp, nth_error (topics st) 0 = Some tp /\ t_phase tp = TPub [0] 2 true 0) /\
     (exists sb, nth_error (subs st) 0 = Some sb /\ s_phase sb = SDel WaitReply [1]) /\
     busy st /\
     (* ... and no server-side step is enabled *)
@@ -690,9 +698,9 @@ Proof.
   unfold answer_remove. intros. destruct (nth_error ss s) as [sb|] eqn:E; auto.
   destruct (s_phase sb) as [|[] stash|] eqn:Ep; auto.
   pose proof (sum_map_set w_sub {| s_mbox := s_mbox sb; s_phase := SDel Replied stash;
-    s_deleted := s_deleted sb; s_topic := s_topic sb; s_exists := s_exists sb |} _ _ E) as X.
+    s_deleted := s_deleted sb; s_topic := s_topic sb; s_exists := s_exists sb; s_log := s_log sb |} _ _ E) as X.
   change (w_sub {| s_mbox := s_mbox sb; s_phase := SDel Replied stash;
-    s_deleted := s_deleted sb; s_topic := s_topic sb; s_exists := s_exists sb |})
+    s_deleted := s_deleted sb; s_topic := s_topic sb; s_exists := s_exists sb; s_log := s_log sb |})
     with (sum (map w_smsg (s_mbox sb)) + 1) in X.
   assert (w_sub sb = sum (map w_smsg (s_mbox sb)) + 1) by (unfold w_sub; rewrite Ep; reflexivity).
   lia.
@@ -1633,6 +1641,446 @@ Proof.
     destruct (C16_attached HK HD R Q _ Hs He Hd Alive) as (tp0 & Ht0 & Hin).
     rewrite Et in Ht0. congruence.
 Qed.
+
+(* ================================================================== *)
+(* C08: posts reach every subscription in the order in which the topic accepted the
+   Publish requests                                                    *)
+
+Inductive sublist : list nat -> list nat -> Prop :=
+| sl_nil : sublist [] []
+| sl_skip : forall x l' l, sublist l' l -> sublist l' (x :: l)
+| sl_keep : forall x l' l, sublist l' l -> sublist (x :: l') (x :: l).
+
+Lemma sublist_refl : forall l, sublist l l.
+Proof. induction l; [apply sl_nil|apply sl_keep; auto]. Qed.
+
+Lemma sublist_nil : forall l, sublist [] l.
+Proof. induction l; constructor; auto. Qed.
+
+Lemma sublist_app_l : forall a l' l, sublist l' l -> sublist (a ++ l') (a ++ l).
+Proof. induction a; simpl; intros; auto. apply sl_keep; auto. Qed.
+
+Lemma sublist_drop_mid : forall a x b, sublist (a ++ b) (a ++ x :: b).
+Proof. intros. apply sublist_app_l. apply sl_skip. apply sublist_refl. Qed.
+
+Lemma sublist_prefix : forall a b, sublist a (a ++ b).
+Proof.
+  intros. rewrite <- (app_nil_r a) at 1. apply sublist_app_l. apply sublist_nil.
+Qed.
+
+Lemma sublist_In : forall l' l x, sublist l' l -> In x l' -> In x l.
+Proof. induction 1; simpl; intros; auto. destruct H0; auto. Qed.
+
+Lemma sublist_Forall : forall (P : nat -> Prop) l' l, sublist l' l -> Forall P l -> Forall P l'.
+Proof.
+  induction 1; intros HF; auto; inversion HF; subst; auto.
+Qed.
+
+Lemma sublist_sorted : forall l' l, sublist l' l -> StronglySorted lt l -> StronglySorted lt l'.
+Proof.
+  induction 1; intros HS; auto; inversion HS; subst; auto.
+  constructor; auto. eapply sublist_Forall; eauto.
+Qed.
+
+Lemma sorted_snoc : forall l n,
+  StronglySorted lt l -> Forall (fun x => x < n) l -> StronglySorted lt (l ++ [n]).
+Proof.
+  induction l as [|a l IH]; simpl; intros n HS HF.
+  - constructor; constructor.
+  - inversion HS; subst. inversion HF; subst. constructor; auto.
+    apply Forall_app. split; auto.
+Qed.
+
+Lemma sorted_NoDup : forall l, StronglySorted lt l -> NoDup l.
+Proof.
+  induction 1; constructor; auto.
+  intros Hin. rewrite Forall_forall in H0. specialize (H0 _ Hin). lia.
+Qed.
+
+Lemma remove1_In : forall s x l, In x (remove1 s l) -> In x l.
+Proof.
+  induction l as [|a l IH]; simpl; intros H; auto.
+  destruct (s =? a); simpl in *; auto. destruct H; auto.
+Qed.
+
+Lemma remove1_NoDup : forall s l, NoDup l -> NoDup (remove1 s l).
+Proof.
+  induction l as [|a l IH]; simpl; intros H; auto. inversion H; subst.
+  destruct (s =? a); auto. constructor; auto. intros X. apply remove1_In in X. auto.
+Qed.
+
+Lemma remove1_notin : forall s l, NoDup l -> ~ In s (remove1 s l).
+Proof.
+  induction l as [|a l IH]; simpl; intros H; auto. inversion H; subst.
+  destruct (s =? a) eqn:E.
+  - apply Nat.eqb_eq in E. subst. auto.
+  - apply Nat.eqb_neq in E. intros [X|X]; [congruence|]. now apply IH.
+Qed.
+
+Lemma queued_posts_app : forall a b, queued_posts (a ++ b) = queued_posts a ++ queued_posts b.
+Proof. intros. unfold queued_posts. apply flat_map_app. Qed.
+
+Lemma answer_remove_delivered : forall s ss j sb,
+  nth_error ss j = Some sb ->
+  exists sb', nth_error (answer_remove s ss) j = Some sb' /\ s_topic sb' = s_topic sb /\
+              delivered sb' = delivered sb.
+Proof.
+  intros s ss j sb Hn. unfold answer_remove.
+  destruct (nth_error ss s) as [sb0|] eqn:E; eauto.
+  destruct (s_phase sb0) as [|[] stash|] eqn:Ep; eauto.
+  destruct (Nat.eq_dec s j) as [->|N].
+  - eexists. split. eapply nth_set_same; eauto. simpl.
+    replace sb0 with sb in * by congruence. split; reflexivity.
+  - exists sb. rewrite nth_set_neq; auto.
+Qed.
+
+(* what a step does to what a subscription has been given: some elements are dropped (a
+   deleting actor ignores posts, an exiting actor drops its mailbox), or one post task of
+   the Publish being handled by a topic appends that Publish's number *)
+Lemma delivered_fwd : forall cfg st l st' s sb,
+  step cfg st l = Some st' -> nth_error (subs st) s = Some sb ->
+  exists sb', nth_error (subs st') s = Some sb' /\ s_topic sb' = s_topic sb /\
+    (sublist (delivered sb') (delivered sb) \/
+     (exists t tp pend c ok n, l = LPost t s /\ nth_error (topics st) t = Some tp /\
+        t_phase tp = TPub pend c ok n /\ In s pend /\
+        delivered sb' = delivered sb ++ [n])).
+Proof.
+  intros cfg st l st' s1 sb1 H Hn.
+  pose proof (sublist_refl (delivered sb1)) as Z.
+  step_inv H; sproj; eauto 7.
+  all: try (exists sb1; split; [now apply nth_snoc_old|auto]; fail).
+  all: try (destruct (answer_remove_delivered s _ _ Hn) as (sb' & Hs' & Et' & Ed');
+            exists sb'; split; [exact Hs'|]; split; [exact Et'|]; left; rewrite Ed'; exact Z).
+  all: at_set s1 sb1.
+  all: split; [reflexivity|].
+  all: unfold delivered in *; sproj.
+  all: try match goal with E : s_mbox _ = _ |- _ => rewrite E in * end.
+  all: rewrite ?queued_posts_app; simpl; rewrite ?app_nil_r.
+  all: try (left; exact Z).
+  - left. destruct k; simpl; rewrite ?app_nil_r; exact Z.
+  - right. apply mem_true_in in Heqb. do 6 eexists. split; [reflexivity|].
+    split; [eassumption|]. split; [eassumption|]. split; [exact Heqb|].
+    now rewrite app_assoc.
+  - left. rewrite <- app_assoc. simpl. apply sublist_refl.
+  - left. apply sublist_drop_mid.
+  - left. apply sublist_prefix.
+Qed.
+
+
+(* what a step does to the Publish handling of one topic *)
+Lemma phase_fwd : forall cfg st l st' t tp,
+  step cfg st l = Some st' -> nth_error (topics st) t = Some tp ->
+  exists tp', nth_error (topics st') t = Some tp' /\
+    ((t_phase tp' = t_phase tp /\ t_seq tp' = t_seq tp /\ forall s, l <> LPost t s) \/
+     (t_phase tp = TIdle /\ (exists c, t_phase tp' = TPub (t_atts tp) c true (t_seq tp)) /\
+      t_seq tp' = S (t_seq tp) /\ l = LTDeq t) \/
+     (exists s pend c ok ok' n, l = LPost t s /\ t_phase tp = TPub pend c ok n /\ In s pend /\
+        t_phase tp' = TPub (remove1 s pend) c ok' n /\ t_seq tp' = t_seq tp) \/
+     (t_phase tp' = TIdle /\ t_seq tp' = t_seq tp /\ forall s, l <> LPost t s)).
+Proof.
+  intros cfg st l st' t1 tp1 H Hn.
+  step_inv H; sproj.
+  all: try (exists tp1; split; [assumption || now apply nth_snoc_old|];
+            left; repeat split; auto; intros; discriminate).
+  all: at_set t1 tp1.
+  all: try (split; [assumption|]).
+  all: try (left; repeat split; auto; intros; try discriminate; congruence).
+  all: try (right; right; right; repeat split; auto; intros; discriminate).
+  - right; left. repeat split; eauto.
+  - right; right; left. apply mem_true_in in Heqb. do 6 eexists. repeat split; eauto.
+  - right; right; left. apply mem_true_in in Heqb. do 6 eexists. repeat split; eauto.
+  - right; right; left. apply mem_true_in in Heqb. do 6 eexists. repeat split; eauto.
+Qed.
+
+
+Lemma topics_new_phase : forall cfg st l st' t tp',
+  step cfg st l = Some st' -> nth_error (topics st) t = None ->
+  nth_error (topics st') t = Some tp' -> t_phase tp' = TIdle /\ t_seq tp' = 0.
+Proof.
+  intros cfg st l st' t1 tp1 H Hnone Hn.
+  step_inv H; sproj; inv_nth; sproj; try congruence.
+  split; reflexivity.
+Qed.
+
+(* subscription s was created on topic t *)
+Definition own_sub (st : state) (t s : nat) : Prop :=
+  exists sb, nth_error (subs st) s = Some sb /\ s_topic sb = t.
+
+Lemma own_sub_step : forall cfg st l st' t s,
+  step cfg st l = Some st' -> own_sub st t s -> own_sub st' t s.
+Proof.
+  intros cfg st l st' t s H (sb & Hs & Et).
+  destruct (@subs_fields_step _ _ _ _ _ _ H Hs) as (sb' & Hs' & Et' & _).
+  exists sb'. split; auto. congruence.
+Qed.
+
+(* attachments and post tasks of a topic concern its own subscriptions; the Publish being
+   handled is the latest one; there is one post task per subscription *)
+Definition inv_pub (st : state) : Prop :=
+  forall t tp, nth_error (topics st) t = Some tp ->
+    (forall s, In s (t_atts tp) -> own_sub st t s) /\
+    (forall pend c ok n, t_phase tp = TPub pend c ok n ->
+       S n = t_seq tp /\ NoDup pend /\ forall s, In s pend -> own_sub st t s).
+
+Lemma inv_pub_step : forall cfg st l st',
+  inv_atts st -> inv_amsg st -> inv_hsub st -> inv_pub st ->
+  step cfg st l = Some st' -> inv_pub st'.
+Proof.
+  intros cfg st l st' IA IM IH I H t1 tp1 Hn.
+  destruct (nth_error (topics st) t1) as [tp|] eqn:Htp.
+  2:{ split.
+      - intros s Hin. rewrite (@topics_new _ _ _ _ _ _ H Htp Hn) in Hin. inversion Hin.
+      - intros pend c ok n Hp.
+        destruct (@topics_new_phase _ _ _ _ _ _ H Htp Hn) as [Hp' _]. congruence. }
+  destruct (I _ _ Htp) as [IAtt IPend].
+  assert (Atts' : forall s, In s (t_atts tp1) -> own_sub st' t1 s).
+  { destruct (@topic_fwd _ _ _ _ _ _ H Htp) as (tp' & Htp' & _ & FB & _).
+    assert (tp' = tp1) by congruence. subst tp'.
+    intros s Hin. eapply own_sub_step; eauto.
+    destruct (FB _ Hin) as [Hold|(h & Hmsg & _)]; auto.
+    destruct (IM _ _ _ _ Htp Hmsg) as (hp & Hh & Es & Et).
+    destruct (IH _ _ Hh) as (sb & Hs & Ets). exists sb. split; congruence. }
+  split; auto.
+  intros pend c ok n Hp.
+  destruct (@phase_fwd _ _ _ _ _ _ H Htp) as (tp' & Htp' & Cases).
+  assert (tp' = tp1) by congruence. subst tp'.
+  destruct Cases as [(Ep & Es & _)|[(Ei & (c0 & Ep) & Es & _)|
+                    [(s0 & pend0 & c0 & ok0 & ok' & n0 & _ & Ep0 & Hin0 & Ep & Es)|(Ep & _)]]].
+  - rewrite Ep in Hp. destruct (IPend _ _ _ _ Hp) as (E1 & E2 & E3).
+    split; [congruence|]. split; auto. intros s Hs. eapply own_sub_step; eauto.
+  - rewrite Ep in Hp. injection Hp as <- <- <- <-.
+    split; [congruence|]. split.
+    + destruct IA as (IA1 & _). now destruct (IA1 _ _ Htp).
+    + intros s Hs. eapply own_sub_step; eauto.
+  - rewrite Ep in Hp. injection Hp as <- <- <- <-.
+    destruct (IPend _ _ _ _ Ep0) as (E1 & E2 & E3).
+    split; [congruence|]. split; [now apply remove1_NoDup|].
+    intros s Hs. eapply own_sub_step; eauto. apply E3. eapply remove1_In; eauto.
+  - congruence.
+Qed.
+
+Lemma inv_pub_reachable : forall cfg st, reachable cfg st -> inv_pub st.
+Proof.
+  induction 1 as [|st l st' R IH H].
+  - intros t tp Hn. unfold init in Hn; simpl in Hn. rewrite nth_nil in Hn. discriminate.
+  - destruct (inv_c16_reachable R) as (_ & IM & _ & IHs & _ & _).
+    eapply inv_pub_step; eauto. eapply inv_atts_reachable; eauto.
+Qed.
+
+(* the order invariant *)
+Definition inv_order (st : state) : Prop :=
+  forall s sb tp, nth_error (subs st) s = Some sb ->
+    nth_error (topics st) (s_topic sb) = Some tp ->
+    StronglySorted lt (delivered sb) /\
+    Forall (fun x => x < t_seq tp) (delivered sb) /\
+    (forall pend c ok n, t_phase tp = TPub pend c ok n -> In s pend ->
+       Forall (fun x => x < n) (delivered sb)).
+
+Lemma Forall_lt_weaken : forall l a b, a <= b ->
+  Forall (fun x => x < a) l -> Forall (fun x => x < b) l.
+Proof. intros l a b Hab HF. eapply Forall_impl; [|exact HF]. simpl. intros; lia. Qed.
+
+Lemma inv_order_step : forall cfg st l st',
+  inv_stopic st -> inv_pub st -> inv_order st -> step cfg st l = Some st' -> inv_order st'.
+Proof.
+  intros cfg st l st' IT IP I H s1 sb1 tp1 Hn Htp1.
+  destruct (@subs_origin _ _ _ _ _ _ H Hn)
+    as [(sb & Hs & Et & _)|(t & -> & Hlt & -> & -> & _)].
+  2:{ unfold delivered, new_sub; simpl. repeat split; intros; constructor. }
+  destruct (nth_error (topics st) (s_topic sb)) as [tp|] eqn:Htp.
+  2:{ apply nth_error_None in Htp. specialize (IT _ _ Hs). lia. }
+  destruct (@delivered_fwd _ _ _ _ _ _ H Hs) as (sb' & Hs' & _ & DCases).
+  assert (sb' = sb1) by congruence. subst sb'.
+  destruct (@phase_fwd _ _ _ _ _ _ H Htp) as (tp' & Htp' & PCases).
+  rewrite Et in Htp1. assert (tp' = tp1) by congruence. subst tp'.
+  destruct (I _ _ _ Hs Htp) as (S0 & F0 & P0).
+  destruct DCases as [Sub|(t0 & tp0 & pend & c & ok & n & -> & Ht0 & Ep0 & Hin & Ed)].
+  - (* nothing new was given to the subscription *)
+    assert (S1 : StronglySorted lt (delivered sb1)) by (eapply sublist_sorted; eauto).
+    split; [exact S1|].
+    destruct PCases as [(Ep & Es & _)|[(Ei & (c0 & Ep) & Es & _)|
+       [(s0 & pend0 & c0 & ok0 & ok' & n0 & _ & Ep0 & Hin0 & Ep & Es)|(Ep & Es & _)]]].
+    + split; [rewrite Es; eapply sublist_Forall; eauto|].
+      intros pend c ok n Hp Hin. rewrite Ep in Hp. eapply sublist_Forall; eauto.
+    + split; [rewrite Es; eapply sublist_Forall; eauto; eapply Forall_lt_weaken; [|eauto]; lia|].
+      intros pend c ok n Hp Hin. rewrite Ep in Hp. injection Hp as <- <- <- <-.
+      eapply sublist_Forall; eauto.
+    + split; [rewrite Es; eapply sublist_Forall; eauto|].
+      intros pend c ok n Hp Hin. rewrite Ep in Hp. injection Hp as <- <- <- <-.
+      eapply sublist_Forall; eauto. eapply P0; eauto. eapply remove1_In; eauto.
+    + split; [rewrite Es; eapply sublist_Forall; eauto|].
+      intros pend c ok n Hp Hin. congruence.
+  - (* the post task of the Publish in progress gave it that Publish's number *)
+    destruct (IP _ _ Ht0) as [_ IPend]. destruct (IPend _ _ _ _ Ep0) as (Eseq & ND & Own).
+    destruct (Own _ Hin) as (sb0 & Hs0 & Et0).
+    assert (sb0 = sb) by congruence. subst sb0. rewrite <- Et0 in *.
+    assert (tp0 = tp) by congruence. subst tp0.
+    specialize (P0 _ _ _ _ Ep0 Hin).
+    destruct PCases as [(_ & _ & Ne)|[(_ & _ & _ & El)|
+       [(s0 & pend0 & c0 & ok0 & ok' & n0 & El & Ep0' & Hin0 & Ep & Es)|(_ & _ & Ne)]]].
+    + exfalso. eapply Ne; reflexivity.
+    + discriminate El.
+    + injection El as <-. rewrite Ep0 in Ep0'. injection Ep0' as <- <- <- <-.
+      rewrite Ed. split; [now apply sorted_snoc|].
+      split.
+      * apply Forall_app. split.
+        -- rewrite Es. eapply Forall_lt_weaken; [|exact P0]. lia.
+        -- constructor; [lia|constructor].
+      * intros pend1 c1 ok1 n1 Hp Hin1. rewrite Ep in Hp. injection Hp as <- <- <- <-.
+        exfalso. eapply remove1_notin; eauto.
+    + exfalso. eapply Ne; reflexivity.
+Qed.
+
+Lemma inv_order_reachable : forall cfg st, reachable cfg st -> inv_order st.
+Proof.
+  induction 1 as [|st l st' R IH H].
+  - intros s sb tp Hn. unfold init in Hn; simpl in Hn. rewrite nth_nil in Hn. discriminate.
+  - destruct (inv_c16_reachable R) as (_ & _ & _ & _ & IT & _).
+    eapply inv_order_step; eauto. eapply inv_pub_reachable; eauto.
+Qed.
+
+(* C08 (order part).  At every reachable state - any capacity, any flags, any interleaving
+   of publishers, consumers, deletions, arrivals and drops - for every subscription:
+   the sequence numbers of the posts it has been given (those it has handled, then those
+   queued in its mailbox, in mailbox order) are strictly increasing: no two Publish requests
+   ever reach a subscription out of the order in which the topic accepted them, and none
+   reaches it twice; all of them are numbers the topic has issued; while the topic handles
+   Publish n its number is the latest issued, there is exactly one post task per
+   subscription, and a subscription whose post task has not sent yet has been given only
+   earlier numbers.  (A number may be missing: a deleting subscription ignores posts and a
+   closed mailbox refuses them.) *)
+Theorem C08_posts_in_publish_order : forall cfg st,
+  reachable cfg st ->
+  forall s sb tp, nth_error (subs st) s = Some sb ->
+    nth_error (topics st) (s_topic sb) = Some tp ->
+    StronglySorted lt (delivered sb) /\
+    Forall (fun x => x < t_seq tp) (delivered sb) /\
+    (forall pend c ok n, t_phase tp = TPub pend c ok n ->
+       t_seq tp = S n /\ NoDup pend /\
+       (In s pend -> Forall (fun x => x < n) (delivered sb)) /\
+       (In n (delivered sb) -> ~ In s pend)).
+Proof.
+  intros cfg st R s sb tp Hs Ht.
+  pose proof (inv_order_reachable R) as IO. pose proof (inv_pub_reachable R) as IPb.
+  destruct (IO _ _ _ Hs Ht) as (S0 & F0 & P0).
+  split; auto. split; auto.
+  intros pend c ok n Hp.
+  destruct (IPb _ _ Ht) as [_ IPend].
+  destruct (IPend _ _ _ _ Hp) as (Eseq & ND & _).
+  split; [congruence|]. split; auto. split; [eauto|].
+  intros Hin Hpend. specialize (P0 _ _ _ _ Hp Hpend).
+  rewrite Forall_forall in P0. specialize (P0 _ Hin). lia.
+Qed.
+
+(* in particular: nothing is delivered twice, and what the actor has appended to its backlog
+   so far is itself in publish order *)
+Corollary C08_no_duplicate : forall cfg st s sb,
+  reachable cfg st -> nth_error (subs st) s = Some sb -> NoDup (delivered sb).
+Proof.
+  intros cfg st s sb R Hs.
+  destruct (inv_c16_reachable R) as (_ & _ & _ & _ & IT & _).
+  destruct (nth_error (topics st) (s_topic sb)) as [tp|] eqn:Ht.
+  - apply sorted_NoDup. eapply C08_posts_in_publish_order; eauto.
+  - apply nth_error_None in Ht. specialize (IT _ _ Hs). lia.
+Qed.
+
+Corollary C08_log_in_publish_order : forall cfg st s sb,
+  reachable cfg st -> nth_error (subs st) s = Some sb -> StronglySorted lt (s_log sb).
+Proof.
+  intros cfg st s sb R Hs.
+  destruct (inv_c16_reachable R) as (_ & _ & _ & _ & IT & _).
+  destruct (nth_error (topics st) (s_topic sb)) as [tp|] eqn:Ht.
+  - eapply sublist_sorted; [apply sublist_prefix|].
+    eapply C08_posts_in_publish_order; eauto.
+  - apply nth_error_None in Ht. specialize (IT _ _ Hs). lia.
+Qed.
+
+(* ingredients of "no gap" (the full statement is not proved, see the report): while a topic
+   handles a Publish it dequeues nothing else, it answers only when every post task is done,
+   and a post task that finds an open mailbox with room puts its PostMessages there *)
+Lemma C08_topic_waits : forall cfg st t tp pend c ok n,
+  nth_error (topics st) t = Some tp -> t_phase tp = TPub pend c ok n ->
+  step cfg st (LTDeq t) = None /\ (pend <> [] -> step cfg st (LTFinish t) = None).
+Proof.
+  intros cfg st t tp pend c ok n Hn Hp. unfold step, step_tdeq, step_tfinish.
+  rewrite Hn, Hp. split; auto. intros Hne. destruct pend; [congruence|reflexivity].
+Qed.
+
+Lemma C08_publish_posts_to_all_attached : forall cfg st t tp c rest st',
+  nth_error (topics st) t = Some tp -> t_phase tp = TIdle -> t_mbox tp = TPublish c :: rest ->
+  step cfg st (LTDeq t) = Some st' ->
+  exists tp', nth_error (topics st') t = Some tp' /\
+    t_phase tp' = TPub (t_atts tp) c true (t_seq tp) /\ t_seq tp' = S (t_seq tp).
+Proof.
+  intros cfg st t tp c rest st' Hn Hp Hm H. unfold step, step_tdeq in H.
+  rewrite Hn, Hp, Hm in H. injection H as <-. sproj.
+  eexists. split; [eapply nth_set_same; eauto|]. split; reflexivity.
+Qed.
+
+Lemma C08_post_delivers : forall cfg st t s tp pend c ok n sb st',
+  nth_error (topics st) t = Some tp -> t_phase tp = TPub pend c ok n ->
+  nth_error (subs st) s = Some sb -> sub_open sb = true ->
+  step cfg st (LPost t s) = Some st' ->
+  exists sb', nth_error (subs st') s = Some sb' /\ s_mbox sb' = s_mbox sb ++ [SPost t n] /\
+              s_log sb' = s_log sb.
+Proof.
+  intros cfg st t s tp pend c ok n sb st' Hn Hp Hs Ho H. unfold step, step_post in H.
+  rewrite Hn, Hp, Hs, Ho in H.
+  destruct (mem s pend); [|discriminate].
+  destruct (length (s_mbox sb) <? K cfg); [|discriminate].
+  injection H as <-. sproj. eexists. split; [eapply nth_set_same; eauto|]. split; reflexivity.
+Qed.
+
+(* ------------------------------------------------------------------ *)
+(* C08 refuted for a topic actor that does not wait for its post tasks ([xstep]): two
+   Publish requests are accepted in the order 0, 1; their post tasks send in the other
+   order; the subscription appends 1 before 0. *)
+
+Lemma xrun_reachable : forall cfg ls xs xs',
+  xreachable cfg xs -> xrun cfg xs ls = Some xs' -> xreachable cfg xs'.
+Proof.
+  induction ls as [|l r IH]; simpl; intros xs xs' R H.
+  - injection H as <-. exact R.
+  - destruct (xstep cfg xs l) as [xs1|] eqn:E; [|discriminate].
+    eapply IH; [|exact H]. eapply xreach_step; eauto.
+Qed.
+
+Definition two_publishes : list label :=
+  [LArrive ANewTopic; LArrive (ACreate 0); LHSend 0; LTDeq 0;
+   LArrive (AReqT 0 KPublish); LCSend 1; LArrive (AReqT 0 KPublish); LCSend 2].
+
+Definition no_await_schedule : list xlabel :=
+  map XL two_publishes ++
+  [XL (LTDeq 0);     (* Publish 0 accepted: publisher answered, post task (0,0,0) floats *)
+   XL (LTDeq 0);     (* Publish 1 accepted: post task (0,0,1) floats *)
+   XPost 1;          (* the post of Publish 1 sends first *)
+   XPost 0;          (* then the post of Publish 0 *)
+   XL (LSDeq 0); XL (LSDeq 0)].
+
+Theorem C08_refuted_without_await :
+  exists xs, xreachable (cfg_fixed 16) xs /\
+    (exists tp, nth_error (topics (x_base xs)) 0 = Some tp /\ t_seq tp = 2) /\
+    nth_error (clients (x_base xs)) 1 = Some (CDone true) /\
+    nth_error (clients (x_base xs)) 2 = Some (CDone true) /\
+    x_posts xs = [] /\ busyb (x_base xs) = false /\
+    (exists sb, nth_error (subs (x_base xs)) 0 = Some sb /\ s_log sb = [1; 0]).
+Proof.
+  eexists. split.
+  { eapply xrun_reachable with (ls := no_await_schedule); [apply xreach_init|].
+    vm_compute. reflexivity. }
+  split; [eexists; split; reflexivity|].
+  repeat (split; [reflexivity|]).
+  eexists; split; reflexivity.
+Qed.
+
+(* the code: the same two Publish requests, run by the deterministic scheduler, and in fact
+   under every schedule by C08_log_in_publish_order *)
+Example two_publishes_in_order :
+  exists st0 st ls, run (cfg_fixed 16) init two_publishes = Some st0 /\
+    auto (cfg_fixed 16) 100 st0 = (st, ls) /\ busyb st = false /\
+    option_map s_log (nth_error (subs st) 0) = Some [0; 1] /\
+    clients st = [CDone true; CDone true; CDone true].
+Proof. do 3 eexists. repeat (split; [vm_compute; reflexivity|]). vm_compute; reflexivity. Qed.
 (* ================================================================== *)
 (* Examples (vm_compute)                                                *)
 
@@ -1751,6 +2199,12 @@ Print Assumptions C16_effect_sub.
 Print Assumptions C16_effect_topic.
 Print Assumptions C16_drop_local.
 Print Assumptions C16_effect_independent.
+Print Assumptions C08_posts_in_publish_order.
+Print Assumptions C08_no_duplicate.
+Print Assumptions C08_log_in_publish_order.
+Print Assumptions C08_refuted_without_await.
+Print Assumptions C08_post_delivers.
+Print Assumptions two_publishes_in_order.
 Print Assumptions C11_attached_only_live.
 Print Assumptions C11_quiescent_exact.
 Print Assumptions C11_refuted_without_guard.
